@@ -393,23 +393,66 @@ def _dumps(run, R2, w, params, p_table, p_value, p_parent):
     tm = vm.loop_map(l)
     b = H.bind_args(c, params) or {}
     h = tm.head
-    whole = text(l.iter) == dp[0] and vm.runs_for_all(l, c) and _never_stops(l) and \
+    # at the loop, the iterable is the data itself when it is a list, or the single item wrapped
+    # in a list when it is not
+    whole = vm.runs_for_all(l, c) and _never_stops(l) and \
         dm.cfg.dominated_by(dm.cfg.exit.id, {h})
-    # at the loop, data is the list itself, or the single item wrapped in a list when it is
-    # not a list
-    defs = vm.reaching(dp[0], h)
-    wraps = [d for d in defs if d != vm.ENTRY]
-    wrap_ok = vm.ENTRY in defs and len(wraps) == 1
-    if wrap_ok:
-      val = vm._plain_value(dp[0], wraps[0])
-      wrap_ok = val is not None and text(val) == "[%s]" % dp[0] and \
-          ("isinstance(%s, list)" % dp[0], False) in vm.cfg_facts(wraps[0]) and \
-          _reaches_unwrapped_only_as_list(vm, dm, dp[0], h, wraps[0])
+    wrap_ok = _list_or_wrapped(vm, dm, l.iter, h, dp[0])
     ok = ok or (whole and vm.t(b.get(p_table), tm) == dp[1] and
                 vm.t(b.get(p_value), tm) == "_v0" and p_parent not in b and wrap_ok)
   run.ob(R2, dm.qualname, "for val in %s: tables.add_row(%s, val)" % (dp[0], dp[1]),
          "every top-level item (or the single root object) becomes a row of the main table",
          ok, fi=dm.fi)
+
+
+def _list_or_wrapped(vm, dm, it, head, data):
+  """Every value the iterable `it` can have at the loop is `data` itself, known to be a list, or
+  `[data]`, with data known not to be a list."""
+  is_list = "isinstance(%s, list)" % data
+  alts = []      # (value expr, facts, def node or None)
+
+  def split(e, at, facts, d):
+    e, at = vm.resolve(e, at=at)
+    if isinstance(e, ast.IfExp):
+      split(e.body, at, facts | vm.test_facts(e.test, True, at=at), d)
+      split(e.orelse, at, facts | vm.test_facts(e.test, False, at=at), d)
+    elif isinstance(e, ast.Name) and e.id != data and len(vm.reaching(e.id, at)) > 1:
+      for dd in vm.reaching(e.id, at):
+        val = vm._plain_value(e.id, dd) if dd != vm.ENTRY else None
+        if val is None:
+          alts.append((None, facts, dd))
+        else:
+          split(val, dd, facts | vm.cfg_facts(dd), dd)
+    else:
+      alts.append((e, facts, d))
+
+  split(it, head, set(), None)
+  if not alts:
+    return False
+  for (e, facts, d) in alts:
+    if e is None:
+      return False
+    if isinstance(e, ast.Name) and e.id == data:
+      defs = vm.reaching(data, head if d is None else d)
+      wraps = [x for x in defs if x != vm.ENTRY]
+      if not wraps:
+        if (is_list, True) not in facts:
+          return False
+        continue
+      # the parameter itself is rebound to [data] on the way: `if not isinstance(..): data = [data]`
+      if d is not None or vm.ENTRY not in defs or len(wraps) != 1:
+        return False
+      val = vm._plain_value(data, wraps[0])
+      if not (val is not None and text(val) == "[%s]" % data and
+              (is_list, False) in vm.cfg_facts(wraps[0]) and
+              _reaches_unwrapped_only_as_list(vm, dm, data, head, wraps[0])):
+        return False
+    elif isinstance(e, ast.List) and len(e.elts) == 1 and text(e.elts[0]) == data:
+      if (is_list, False) not in facts:
+        return False
+    else:
+      return False
+  return True
 
 
 def _reaches_unwrapped_only_as_list(vm, dm, name, head, wrap):
